@@ -353,6 +353,11 @@ func (c *c20) signBytes() {
 				c.fail("C20|signbytes|"+cls, fmt.Sprintf("tx %d: sign bytes %s vs %s", i, sb, sb3), nil)
 			}
 		}
+		// the harness's own independent rendering of the documented sign bytes must agree byte for byte
+		c.count("sign bytes vs independent builder", 1)
+		if ind := chain.CanonicalSignBytes(chain.ChainID, tx.Entropy, tx.Fee, tx.Msg, tx.Memo); !bytes.Equal(ind, sb) {
+			c.fail("C20|signbytes|differs-from-independent-rendering", fmt.Sprintf("tx %d: StdSignBytes %s, independent rendering %s", i, sb, ind), nil)
+		}
 		// sign bytes are sorted JSON without insignificant whitespace
 		if !bytes.Equal(sdk.MustSortJSON(sb), sb) {
 			c.fail("C20|signbytes|not-canonical", fmt.Sprintf("tx %d: sign bytes are not key-sorted JSON: %s", i, sb), nil)
